@@ -123,14 +123,16 @@ func (p *Processor) Run(ctx context.Context) error {
 					continue
 				}
 
+				// A failed step ends this polling cycle: going on with a later segment would
+				// commit an offset beyond records that were never written to the sink.
 				state, err := p.store.LoadOffset(ctx, seg.Topic, seg.Partition)
 				if err != nil {
-					continue
+					break
 				}
 
 				records, err := p.decode.Decode(ctx, seg.SegmentKey, seg.IndexKey, seg.Topic, seg.Partition)
 				if err != nil {
-					continue
+					break
 				}
 				if len(records) == 0 {
 					continue
@@ -148,7 +150,7 @@ func (p *Processor) Run(ctx context.Context) error {
 				err = p.sink.Write(ctx, mapped)
 				unlock()
 				if err != nil {
-					continue
+					break
 				}
 
 				last := mapped[len(mapped)-1]
